@@ -52,6 +52,7 @@ structure Op where
   len   : Nat
   state : OpState
   seen  : Nat := 0      -- write ops: bytes of this op the peer has already been seen to receive
+  atLimit : Bool := false  -- started while the dispatch counter was at (or above) MaxCallbackDispatch (C14)
   deriving Repr, DecidableEq, Inhabited
 
 /-- What a returning call reported. -/
@@ -179,6 +180,18 @@ def guarded (checks : List (Bool × String)) (next : S) : M S :=
   | some k => .error k
   | none => .ok next
 
+/-- How a transition treats its clauses. The monitor proper uses `guarded`; the drivers also run the same
+transition with `forced` (the next state regardless of the clauses) and `allFailed` (every violated clause, not only
+the first) to keep reading a trace after a violation: see `Driver.LoopSpec`. -/
+abbrev Guard := List (Bool × String) → S → M S
+
+def forced : Guard := fun _ next => .ok next
+
+def allFailed : Guard := fun checks next =>
+  match (checks.filter (·.1)).map (·.2) with
+  | [] => .ok next
+  | ks => .error (",".intercalate ks)
+
 def innerCallIsCancel (st : List Frame) (obj : Nat) : Bool :=
   match innerCall st with
   | some (.cancel o _) => o == obj
@@ -226,7 +239,7 @@ def enterNext (s : S) (o : Op) (res : Res) (n : Int) : S :=
   { s with stack := .handler o.id (o.kind.isIO && res != .cancelled) :: bumpPoll s.stack }
 
 /-- What is checked when a call returns (frame `f` popped, `s` already without it). -/
-def retStep (s : S) (f : Frame) (r : Ret) : M S :=
+def retStepWith (g : Guard) (s : S) (f : Frame) (r : Ret) : M S :=
   match f, r with
   | .start op, _ =>
     match findOp s op with
@@ -234,7 +247,7 @@ def retStep (s : S) (f : Frame) (r : Ret) : M S :=
     | none => .ok s
   | .cancel obj snap, _ =>
     -- C01: Cancel completes each in-flight operation exactly once (or the object got closed meanwhile)
-    guarded [(!(snap.all (fun id => match findOp s id with
+    g [(!(snap.all (fun id => match findOp s id with
                                     | some o => o.state == .done || o.state == .dropped
                                     | none => true) || s.closed.contains obj), "cancel-left-operation-in-flight")] s
   | .close obj, _ =>
@@ -246,7 +259,7 @@ def retStep (s : S) (f : Frame) (r : Ret) : M S :=
     match findOp s op with
     | none => .ok s
     | some o =>
-      guarded [(closedT && isNil, "closed-timer-revived"), (wasArmed && isNil, "schedule-while-scheduled-accepted")]
+      g [(closedT && isNil, "closed-timer-revived"), (wasArmed && isNil, "schedule-while-scheduled-accepted")]
         (if !isNil then setOp s { o with state := if o.state == .starting then .dropped else o.state }
          else if o.state == .starting then setOp s { o with state := .inflight } else s)
   | .tcancel obj, .err isNil =>
@@ -260,60 +273,68 @@ def retStep (s : S) (f : Frame) (r : Ret) : M S :=
     let inOwnHandler := s.stack.any fun f => match f with
       | .handler h _ => (match findOp s h with | some o => o.obj == obj && o.kind.isTimer | none => false)
       | _ => false
-    guarded [(!inOwnHandler && b != ((s.ops.find? fun o => o.obj == obj && o.kind.isTimer && o.state == .inflight).isSome),
+    g [(!inOwnHandler && b != ((s.ops.find? fun o => o.obj == obj && o.kind.isTimer && o.state == .inflight).isSome),
               "scheduled-flag-wrong")] s
   | .post op, .err isNil =>
     match findOp s op with
     | some o => .ok (if isNil then { (setOp s { o with state := .inflight }) with posts := s.posts ++ [op] }
                      else setOp s { o with state := .dropped })
     | none => .ok s
-  | .poll k, .poll n _ =>
+  | .poll k, .poll n res =>
     -- C03: PollOne reports a positive count whenever it dispatched at least one handler, never success for nothing
-    guarded [(k > 0 && n == 0, "poll-dispatched-but-reported-nothing"), (n == 0, "poll-nothing-ready-reported-success")] s
+    -- (`n = -1`: RunOne / RunOneFor, which report no count; `n = -2`: RunPending returned; result `eof` stands for "the
+    -- call did not return although every operation in flight had been made completable" — the harness's watchdog)
+    g [(k > 0 && n == 0, "poll-dispatched-but-reported-nothing"), (n == 0, "poll-nothing-ready-reported-success"),
+       (res == .eof, "poll-run-did-not-return"),
+       (res == .err, "poll-reported-error"),
+       (n == -2 && res == .ok && !(inflightOps s).isEmpty, "poll-runpending-returned-with-operations-in-flight")] s
   | .poll k, .pollTimeout n =>
-    guarded [(k > 0 && n ≥ 0, "poll-dispatched-but-reported-timeout")] s
+    g [(k > 0 && n ≥ 0, "poll-dispatched-but-reported-timeout")] s
   | .pending, .pending p q d =>
     -- C03: with no handler executing, Pending() = operations in flight; C14: depth accounting back to zero
-    guarded [(depth s == 0 && p != ((inflightOps s).length : Int), "pending-differs-from-ledger"),
+    g [(depth s == 0 && p != ((inflightOps s).length : Int), "pending-differs-from-ledger"),
              (depth s == 0 && q != (s.posts.length : Int), "posted-differs-from-ledger"),
              (depth s == 0 && d != s.forcedDisp, "dispatch-depth-not-restored")] s
   | .peerDrain obj, .drained bytes =>
     -- C02: what the peer received = completed writes in order, then a prefix of the write still in flight
     let done := lookup s.txDone obj []
     if bytes.length ≤ done.length then
-      guarded [(bytes != done.take bytes.length, "peer-received-different-bytes")]
+      g [(bytes != done.take bytes.length, "peer-received-different-bytes")]
         { s with txDone := update s.txDone obj (done.drop bytes.length) }
     else
       let extra := bytes.drop done.length
       match (s.ops.find? fun o => o.obj == obj && o.kind.isWrite && (o.state == .inflight || o.state == .starting)) with
       | none => .error "peer-received-bytes-nobody-wrote"
       | some o =>
-        guarded [(done != bytes.take done.length, "peer-received-different-bytes"),
+        g [(done != bytes.take done.length, "peer-received-different-bytes"),
                  (extra != opBytes o.id o.seen extra.length || o.seen + extra.length > o.len, "peer-received-different-bytes")]
           { (setOp s { o with seen := o.seen + extra.length }) with txDone := update s.txDone obj [] }
   | .finish, .stuck ops =>
     -- C01 (liveness, as far as a run can show it): nothing whose descriptor is ready stays uncompleted
-    guarded [(!ops.isEmpty, "operation-never-completed-although-ready")] s
+    -- C14: an operation deferred only because the dispatch limit was reached completes later like any other
+    g [(ops.any (fun id => match findOp s id with | some o => o.atLimit | none => false), "operation-deferred-at-limit-never-completed"),
+       (!ops.isEmpty, "operation-never-completed-although-ready")] s
   | _, _ => .ok s
 
-def step (s : S) : Ev → M S
+def stepWith (g : Guard) (s : S) : Ev → M S
   | .obj obj kind =>
       .ok (if kind == .regular then { s with regular := obj :: s.regular, peerSent := update s.peerSent obj 256 } else s)
   | .callStart op obj kind len =>
-      guarded [((findOp s op).isSome, "op-id-reused")]
-        { (setOp s { id := op, obj := obj, kind := kind, len := len, state := .starting }) with stack := .start op :: s.stack }
+      g [((findOp s op).isSome, "op-id-reused")]
+        { (setOp s { id := op, obj := obj, kind := kind, len := len, state := .starting,
+                     atLimit := decide (s.forcedDisp + (ioDepth s : Int) ≥ (maxDispatch : Int)) }) with stack := .start op :: s.stack }
   | .callCancel obj =>
       let snap := (inflightOps s).filter (fun o => o.obj == obj && !o.kind.isTimer && o.kind != .post) |>.map (·.id)
       .ok { s with stack := .cancel obj snap :: s.stack }
   | .callClose obj => .ok { s with stack := .close obj :: s.stack }
   | .callSched op obj rep ticks =>
-      guarded [((findOp s op).isSome, "op-id-reused")]
+      g [((findOp s op).isSome, "op-id-reused")]
         { (setOp s { id := op, obj := obj, kind := if rep then .timerRep else .timerOnce, len := ticks.toNat, state := .starting }) with
             stack := .sched op obj (armedTimer s obj).isSome (s.closed.contains obj) :: s.stack }
   | .callTCancel obj => .ok { s with stack := .tcancel obj :: s.stack }
   | .callScheduled obj => .ok { s with stack := .scheduled obj :: s.stack }
   | .callPost op =>
-      guarded [((findOp s op).isSome, "op-id-reused")]
+      g [((findOp s op).isSome, "op-id-reused")]
         { (setOp s { id := op, obj := 0, kind := .post, len := 0, state := .starting }) with stack := .post op :: s.stack }
   | .callSetDisp n => .ok { s with forcedDisp := n, stack := .other :: s.stack }
   | .callPoll => .ok { s with stack := .poll 0 :: s.stack }
@@ -326,7 +347,7 @@ def step (s : S) : Ev → M S
   | .enter op res n data early =>
       match findOp s op with
       | none => .error "callback-of-unknown-op"
-      | some o => guarded (enterChecks s o res n data early) (enterNext s o res n)
+      | some o => g (enterChecks s o res n data early) (enterNext s o res n)
   | .exit op =>
       match s.stack with
       | .handler h _ :: r => if h == op then .ok { s with stack := r } else .error "handler-nesting-broken"
@@ -334,7 +355,12 @@ def step (s : S) : Ev → M S
   | .ret r =>
       match s.stack with
       | [] => .error "return-without-call"
-      | f :: rest => retStep { s with stack := rest } f r
+      | f :: rest => retStepWith g { s with stack := rest } f r
+
+def retStep : S → Frame → Ret → M S := retStepWith guarded
+
+/-- The monitor: one event, first violated clause or the next state. -/
+def step : S → Ev → M S := stepWith guarded
 
 /-- Run the monitor over an event list. -/
 def run (s : S) : List Ev → M S
